@@ -140,7 +140,7 @@ def stratified_subsampling(Y, X, approximation_factor, _f_values_X):
         final_index_array[index_offset:second_offset] = x_indices
         index_offset += x_indices_len
 
-    final_index_array = final_index_array.astype(np.int32)
+    final_index_array = final_index_array[:index_offset].astype(np.int32)
 
     X = X[final_index_array]
     Y = Y[final_index_array]
